@@ -83,6 +83,21 @@ def gen(rnd, family):
             b = (add("addconst", [b], val=10000), 1)
         add("sink", [a])
         add("sink", [b])
+    elif family == "two_src":
+        # two finite sources (often of equal length, so that they finish in the same pass) merged
+        # by Add, blocks added in any order
+        cap = rnd.choice([1, 2, 3, 4])
+        sb = cap * 4096
+        n1 = rnd.choice([0, 1, cap, cap + 1, 2 * cap + 1, rnd.randint(0, 9)])
+        n2 = n1 if rnd.random() < 0.6 else rnd.choice([0, 1, cap, n1 + 1, rnd.randint(0, 9)])
+        a = (add("src_big", data=list(range(1, n1 + 1))), 1)
+        b = (add("src_big", data=[100 * k for k in range(1, n2 + 1)]), 1)
+        if rnd.random() < 0.3:
+            a = (add("addconst", [a], val=7), 1)
+        m = add("add", [a, b])
+        if rnd.random() < 0.3:
+            m = add("addconst", [(m, 1)], val=1000)
+        add("sink", [(m, 1)])
     elif family == "pkt":
         bits = []
         for _ in range(rnd.randint(2, 6)):
@@ -185,7 +200,7 @@ def gen(rnd, family):
     return {"nodes": nodes, "order": order, "stream_bytes": sb, "family": family}
 
 
-FAMILIES = ["big_chain", "big_diamond", "tee_uneven", "pkt", "u8_rate", "bits", "float"]
+FAMILIES = ["big_chain", "big_diamond", "tee_uneven", "pkt", "u8_rate", "bits", "float", "two_src"]
 
 
 def fixed_graphs():
